@@ -7,10 +7,20 @@ from ..core import main
 SITE = "mlmodel.CategoriesToIntegers"
 
 
+# category code -> value.  kind "str": 'v1'..'v9' (string order = code order); kind "int": integers whose natural order
+# is the code order but whose str() order is not (2 < 10 < 30 < 100 ...), kept in an object column
+INTS = [None, 2, 10, 30, 100, 200, 1000, 3000, 10000, 20000]
+KIND = ["str"]
+
+
 def _val(v, alt):
     if v == 0:
         return None if alt else numpy.nan
-    return "v%d" % v
+    return "v%d" % v if KIND[0] == "str" else INTS[v]
+
+
+def _name(c, v):
+    return "c%d=v%d" % (c, v) if KIND[0] == "str" else "c%d=%d" % (c, INTS[v])
 
 
 def make_frame(rows, ncat, nnum, rng_idx, numvals=None):
@@ -42,13 +52,16 @@ def code_of(name):
     c, _, v = name.partition("=")
     if c.startswith("c") and v.startswith("v") and c[1:].isdigit() and v[1:].isdigit():
         return int(c[1:]) * 100 + int(v[1:])
+    if c.startswith("c") and c[1:].isdigit() and v.isdigit() and int(v) in INTS:
+        return int(c[1:]) * 100 + INTS.index(int(v))
     return -1
 
 
-def observe(cats, remove, skip, frame_rows, ncat, nnum):
+def observe(cats, remove, skip, frame_rows, ncat, nnum, kind="str"):
     from mlinsights.mlmodel import CategoriesToIntegers
+    KIND[0] = kind
     cols = ["c%d" % (c + 1) for c in range(ncat)]
-    rm = ["c%d=v%d" % (cv // 100, cv % 100) for cv in remove] or None
+    rm = [_name(cv // 100, cv % 100) for cv in remove] or None
     A = fit_frame(cats, ncat, nnum)
     idx = [7 * r + 5 for r in range(len(frame_rows))]
     B = make_frame(frame_rows, ncat, nnum, idx)
@@ -59,14 +72,11 @@ def observe(cats, remove, skip, frame_rows, ncat, nnum):
     try:
         R = tr.transform(B)
         out["outcome"] = "ok"
-    except ValueError as e:
-        out["outcome"] = "raise" if "Unable to find category" in str(e) else "other:" + repr(e)[:80]
-        R = None
-    except NameError:
+    except NameError:             # includes UnboundLocalError
         out["outcome"] = "nameerror"
         R = None
-    except UnboundLocalError:
-        out["outcome"] = "nameerror"
+    except Exception:             # "raises an error": the property does not fix its type
+        out["outcome"] = "raise"
         R = None
     out.update(res=[[] for _ in frame_rows], others_nan=True, numeric_ok=True, index_ok=True)
     if R is not None:
@@ -98,8 +108,8 @@ def observe(cats, remove, skip, frame_rows, ncat, nnum):
         out["single"] = codes
         out["single_rest_ok"] = bool(list(S.columns) == list(B0.columns) and list(S.index) == idx and all(
             numpy.array_equal(S["n%d" % (c + 1)].to_numpy(), B0["n%d" % (c + 1)].to_numpy()) for c in range(nnum)))
-    except ValueError as e:
-        out["single_outcome"] = "raise" if "Unable to find category" in str(e) else "other:" + repr(e)[:80]
+    except Exception:
+        out["single_outcome"] = "raise"
     return out
 
 
@@ -153,7 +163,8 @@ def run(ctx):
                              outcome=case["outcome"], res=case["res"]))
         ctx.traces += 1
         try:
-            o = observe(case["cats"], case["remove"], case["skip"], case["frame"], 2, 1)
+            o = observe(case["cats"], case["remove"], case["skip"], case["frame"], 2, 1,
+                        kind="int" if hash(key) % 3 == 0 else "str")
         except Exception as e:
             ctx.violation("CallSucceeds", SITE, sig, repr(e), case=case)
             continue
@@ -190,7 +201,7 @@ def run(ctx):
         sig = case_sig(cats, remove, skip, frame)
         ctx.case(("c2s", tuple(map(tuple, cats)), tuple(remove), skip, tuple(map(tuple, frame))), nontrivial=m >= 2)
         try:
-            o = observe(cats, remove, skip, frame, ncat, nnum)
+            o = observe(cats, remove, skip, frame, ncat, nnum, kind=rng.choice(["str", "int"]))
         except Exception as e:
             ctx.violation("CallSucceeds", SITE, sig, repr(e), case=dict(cats=cats, remove=remove, skip=skip, frame=frame))
             continue
@@ -213,7 +224,7 @@ def run(ctx):
                 "CatTrace. non-trivial = frames of >= 2 rows." % (stride, len(seen)))
     ctx.assumptions += ["columns= is passed explicitly and frames are object dtype (auto-detection is broken by pandas 3: version drift)",
                         "a category listed in `remove` is treated as the code treats it: it has no column, and a row holding it is an unseen value",
-                        "category strings are 'v1'..'v9' so that string order is integer order"]
+                        "categories are strings 'v1'..'v9' or integers (2, 10, 30, 100, ...) in object columns; the spec's order is theirs"]
 
 
 if __name__ == "__main__":
